@@ -151,6 +151,58 @@ func Aggregate(files []*CountFile) (out map[Build]*ProgCounts, overflow bool) {
 	return out, overflow
 }
 
+// Overflowed returns, per build, the (expanded) names whose sum over the readable files involved a value or a
+// partial sum beyond 1<<62: for those the int64 of a report cannot be held to "the sum", every other name's value
+// and the presence of every name can.
+func Overflowed(files []*CountFile) map[Build]map[string]bool {
+	out := map[Build]map[string]bool{}
+	sums := map[Build]map[string]int64{}
+	for _, f := range files {
+		if !f.Readable() {
+			continue
+		}
+		if sums[f.Build] == nil {
+			sums[f.Build] = map[string]int64{}
+			out[f.Build] = map[string]bool{}
+		}
+		for raw, v := range f.Counts {
+			name := vformat.ExpandStack(raw)
+			key := "c" + name
+			if strings.Contains(name, "\n") {
+				key = "s" + name
+			}
+			if v > 1<<62 || sums[f.Build][key] > 1<<62 {
+				out[f.Build][name] = true
+			}
+			sums[f.Build][key] += int64(v)
+		}
+	}
+	return out
+}
+
+// ZeroValues returns a copy of m in which the values of the names listed in only (of every name if only is nil)
+// are replaced by 0, so that DiffProgs compares those names by presence alone.
+func ZeroValues(m map[Build]*ProgCounts, only map[Build]map[string]bool) map[Build]*ProgCounts {
+	out := map[Build]*ProgCounts{}
+	for b, p := range m {
+		q := &ProgCounts{Build: b, Counters: map[string]int64{}, Stacks: map[string]int64{}}
+		for k, v := range p.Counters {
+			if only == nil || only[b][k] {
+				v = 0
+			}
+			q.Counters[k] = v
+		}
+		for k, v := range p.Stacks {
+			if only == nil || only[b][k] {
+				v = 0
+			}
+			q.Stacks[k] = v
+		}
+		out[b] = q
+	}
+	return out
+}
+
 // AsRendered returns the aggregate with every name as a JSON rendering shows it: each byte that is not part of a
 // valid UTF-8 sequence is replaced by U+FFFD (names that become equal are summed). Approval is decided on the raw
 // names; only the comparison with a report that was written as JSON uses the rendered ones.
